@@ -466,7 +466,7 @@ def scenario(draw, p=None):
 # (hedge_gamma = 0) and fit_lik = False (known finding of C09, exercised by a dedicated case).
 # ---------------------------------------------------------------------------------------------
 ADV_OPTS = (
-    ("poll_mesh_multiplier", (3.0, 4.0)), ("n_train_max", (20, 35)), ("n_train_min", (10, 25)), ("buffer_ntrain", (10, 40)),
+    ("poll_mesh_multiplier", (3.0, 4.0, 2, 3)), ("n_train_max", (20, 35)), ("n_train_min", (10, 25)), ("buffer_ntrain", (10, 40)),
     ("improvement_quantile", (0.25, 0.75)), ("tol_stall_iters", (1, 2, 10)), ("accelerate_mesh_steps", (1, 5)),
     ("sloppy_improvement", (False,)), ("search_grid_number", (5, 20)), ("search_grid_multiplier", (1, 3)),
     ("mesh_overflow_warning", (1, 10)), ("max_poll_grid_number", (1, 2)), ("adaptive_incumbent_shift", (True,)),
